@@ -1,1 +1,157 @@
-(* C15 stub: to be written *)
+(* C15 -- model of epgpy.utils.imaging / probe.Imaging._acquire / operator.System over R and
+   Coquelicot's C.  One output element (one batch entry b, one position p) is
+
+     value = sum over kept phase states j of   w * ( form(k_j) * mod(t_j) * F_j ) * exp(i k_j . x)
+
+   exactly as utils.imaging computes it (utils.py 58-102):
+     form   = 1 ('point')  or  prod_axis sinc_np (k_axis * size_axis / 2 / pi)  ('box'),
+     mod    = exp(|t| * re(modulation)) [* cis(t * 2 * pi * im(modulation)) if modulation is complex]
+              [* cis(phase * pi / 180)],   mod = phase factor only when there is no time axis / no modulation,
+     masks  : a state is dropped when |form| <= tol ('box') or exp(|t| re) <= tol (modulated),
+     k . x  = sum over the first len(x) wavenumber columns,
+     weights multiply the un-reduced output; reduce only sums it.
+   Faithfulness to the numpy code is established by the correspondence check (props/c15.py), which
+   evaluates [img_list] inside Coq with the Interval tactic on the exact inputs of the real run. *)
+From Coq Require Import Reals List Bool.
+From Coquelicot Require Import Coquelicot.
+From EPG Require Import Scalar CInst.
+Import ListNotations.
+Local Open Scope R_scope.
+
+(* numpy.sinc: sin(pi u)/(pi u), 1 at u = 0 *)
+Definition sinc_np (u : R) : R := if Req_EM_T u 0 then 1 else sin (PI * u) / (PI * u).
+
+(* one phase state as the probe sees it: sm.F[j], sm.k[j, :], sm.t[j] *)
+Record pstate := mkPS { sF : C; sk : list R; st : R }.
+
+Inductive vshape := Point | Box.
+
+(* modulation argument: real array -> (re, None); complex array -> (re, Some im) *)
+Record icfg := mkCfg {
+  shape : vshape;
+  vsize : list R;                 (* voxel_size broadcast to the wavenumber columns *)
+  tol : R;
+  timed : bool;                   (* acctime is not None  (sm.kdim == 4) *)
+  modul : option (R * option R);
+  phase : option R;               (* degrees *)
+  weight : option C
+}.
+
+Fixpoint prodR (l : list R) : R := match l with [] => 1 | a :: r => a * prodR r end.
+Fixpoint sumC (l : list C) : C := match l with [] => RtoC 0 | a :: r => Cplus a (sumC r) end.
+Fixpoint sumR (l : list R) : R := match l with [] => 0 | a :: r => a + sumR r end.
+
+Fixpoint map2 {A B X} (f : A -> B -> X) (la : list A) (lb : list B) : list X :=
+  match la, lb with a :: ra, b :: rb => f a b :: map2 f ra rb | _, _ => [] end.
+
+(* the scaling constant of the sinc argument is the source's  k * voxel_size / 2 / np.pi  (utils.py:62);
+   props/c15.py re-extracts it from the ast on every run *)
+Definition sinc_arg (k d : R) : R := k * d / 2 / PI.
+
+Definition boxform (ds ks : list R) : R := prodR (map2 (fun k d => sinc_np (sinc_arg k d)) ks ds).
+
+Definition form (c : icfg) (s : pstate) : R :=
+  match shape c with Point => 1 | Box => boxform (vsize c) (sk s) end.
+
+(* k[..., :kdim] . pos *)
+Fixpoint kdot (ks xs : list R) : R :=
+  match ks, xs with k :: rk, x :: rx => k * x + kdot rk rx | _, _ => 0 end.
+
+(* the modulation in force: only with a time axis *)
+Definition modul_eff (c : icfg) : option (R * option R) := if timed c then modul c else None.
+
+Definition modre (c : icfg) (s : pstate) : R :=
+  match modul_eff c with Some (re, _) => exp (Rabs (st s) * re) | None => 1 end.
+
+Definition modim (c : icfg) (s : pstate) : C :=
+  match modul_eff c with Some (_, Some im) => cis (st s * 2 * PI * im) | _ => RtoC 1 end.
+
+Definition phasefac (c : icfg) : C :=
+  match phase c with Some p => cis (p * PI / 180) | None => RtoC 1 end.
+
+Definition wfac (c : icfg) : C := match weight c with Some w => w | None => RtoC 1 end.
+
+(* mod of the source (after the phase offset) *)
+Definition modfac (c : icfg) (s : pstate) : C :=
+  Cmult (Cmult (RtoC (modre c s)) (modim c s)) (phasefac c).
+
+(* im[..., j] = (voxel * mod * F) * exp(1j * kpos) * weights *)
+Definition term (c : icfg) (x : list R) (s : pstate) : C :=
+  Cmult (Cmult (Cmult (Cmult (RtoC (form c s)) (modfac c s)) (sF s)) (cis (kdot (sk s) x))) (wfac c).
+
+(* masks, as propositions (what the Interval tie proves per state) ... *)
+Definition kkeepP (c : icfg) (s : pstate) : Prop :=
+  match shape c with Point => True | Box => tol c < Rabs (form c s) end.
+Definition kdropP (c : icfg) (s : pstate) : Prop :=
+  match shape c with Point => False | Box => Rabs (form c s) <= tol c end.
+Definition mkeepP (c : icfg) (s : pstate) : Prop :=
+  match modul_eff c with Some _ => tol c < modre c s | None => True end.
+Definition mdropP (c : icfg) (s : pstate) : Prop :=
+  match modul_eff c with Some _ => modre c s <= tol c | None => False end.
+Definition keepP (c : icfg) (s : pstate) : Prop := kkeepP c s /\ mkeepP c s.
+Definition dropP (c : icfg) (s : pstate) : Prop := kdropP c s \/ mdropP c s.
+
+(* ... and as the decision the code takes *)
+Definition kkeepb (c : icfg) (s : pstate) : bool :=
+  match shape c with Point => true | Box => if Rlt_dec (tol c) (Rabs (form c s)) then true else false end.
+Definition mkeepb (c : icfg) (s : pstate) : bool :=
+  match modul_eff c with Some _ => if Rlt_dec (tol c) (modre c s) then true else false | None => true end.
+Definition keepb (c : icfg) (s : pstate) : bool := kkeepb c s && mkeepb c s.
+
+(* value with an explicit keep list (general: the source's masks are `any` over all batch/position
+   entries, so with entry-dependent modulation a state is kept as soon as one entry keeps it) *)
+Fixpoint img_list (keeps : list bool) (c : icfg) (x : list R) (l : list pstate) : C :=
+  match keeps, l with
+  | b :: rb, s :: rs => Cplus (if b then term c x s else RtoC 0) (img_list rb c x rs)
+  | _, _ => RtoC 0
+  end.
+
+(* the value of one output element when masks are decided by this element alone *)
+Definition img (c : icfg) (x : list R) (l : list pstate) : C :=
+  img_list (map (keepb c) l) c x l.
+
+(* no masking at all *)
+Definition img_all (c : icfg) (x : list R) (l : list pstate) : C :=
+  sumC (map (term c x) l).
+
+(* ---- reduce: the un-reduced output is a (batch x position) matrix ---- *)
+Definition reduce_ax1 (m : list (list C)) : list C := map sumC m.
+Fixpoint addrows (a b : list C) : list C :=
+  match a, b with x :: ra, y :: rb => Cplus x y :: addrows ra rb | _, _ => [] end.
+Fixpoint reduce_ax0 (ncol : nat) (m : list (list C)) : list C :=
+  match m with [] => repeat (RtoC 0) ncol | r :: rest => addrows r (reduce_ax0 ncol rest) end.
+Definition reduce_all (m : list (list C)) : C := sumC (map sumC m).
+
+(* un-reduced output: entry (b, p) has its own weight / modulation (cfgs b p), states of batch entry b,
+   position p *)
+Definition out_matrix (cfgs : list (list icfg)) (xs : list (list R)) (sts : list (list pstate)) : list (list C) :=
+  map2 (fun crow l => map2 (fun c x => img c x l) crow xs) cfgs sts.
+
+(* ---- Imaging._acquire: option resolution, System ---- *)
+Record popts := mkOpts { o_modul : option (R * option R); o_weight : option C }.
+Record psystem := mkSys { s_modul : option (R * option R); s_weight : option C }.
+
+Definition resolve {A} (arg sys : option A) : option A :=
+  match arg with Some v => Some v | None => sys end.
+
+(* base: everything that is neither modulation nor weights (voxel_shape, voxel_size, tol, phase, timed).
+   [pops = true] is the behaviour of probe.py 203/206 as found on the pinned tree: the probe REMOVES
+   modulation / weights from its own options when it acquires. *)
+Definition resolve_cfg (base : icfg) (o : popts) (sys : psystem) : icfg :=
+  mkCfg (shape base) (vsize base) (tol base) (timed base)
+        (resolve (o_modul o) (s_modul sys)) (phase base) (resolve (o_weight o) (s_weight sys)).
+
+Definition next_opts (pops : bool) (o : popts) : popts := if pops then mkOpts None None else o.
+
+(* options of the probe instance before its n-th acquisition (n = 0: as constructed) *)
+Fixpoint opts_at (pops : bool) (n : nat) (o : popts) : popts :=
+  match n with O => o | S m => opts_at pops m (next_opts pops o) end.
+
+Definition acquire (pops : bool) (base : icfg) (o : popts) (sys : psystem) (x : list R) (l : list pstate)
+  : C * popts :=
+  (img (resolve_cfg base o sys) x l, next_opts pops o).
+
+Definition acquire2 (pops : bool) (base : icfg) (o : popts) (sys : psystem) (x : list R) (l : list pstate)
+  : C * C :=
+  let '(v1, o1) := acquire pops base o sys x l in
+  let '(v2, _) := acquire pops base o1 sys x l in (v1, v2).
